@@ -264,6 +264,7 @@ struct Tracee {
     crash_at: Option<usize>,
     fault_at: Option<(usize, i64)>,
     ops_done: usize,
+    callnames: Vec<String>,
 }
 
 struct World {
@@ -989,6 +990,16 @@ fn advance(t: &mut Tracee, ctx: &mut RunCtx, sched: bool, stop_after_ret: bool) 
             let counted = call.name != "rec" && !t.world && (t.phase == "lib" || t.phase == "cb" || t.phase == "prep");
             if counted {
                 t.nrec += 1;
+                // index names: "prep:<call>" for the application's own calls (never faulted), "closedir" for
+                // closing a directory stream (std itself panics if that fails; it cannot fail on Linux)
+                let cname = if t.phase == "prep" {
+                    format!("prep:{}", call.name)
+                } else if call.name == "close" && call.fdino.is_none() {
+                    "closedir".to_string()
+                } else {
+                    call.name.to_string()
+                };
+                t.callnames.push(cname);
                 if t.crash_at == Some(t.nrec) {
                     unsafe { libc::kill(pid, libc::SIGKILL) };
                     loop {
@@ -1366,6 +1377,7 @@ fn subst(v: &Value, top: &str) -> Value {
 }
 
 struct StageResult {
+    calls: Vec<(usize, Vec<String>)>, // per participant: names of its counted calls (crash/fault indices)
     choices: Vec<usize>,       // participant chosen at each decision point
     enabled: Vec<Vec<usize>>,  // enabled participants at each decision point
     last_before: Vec<usize>,   // participant that ran before each decision point (usize::MAX if none)
@@ -1379,7 +1391,7 @@ enum Strategy<'a> {
 
 fn run_stage(stage: &Value, ctx: &mut RunCtx, actor: &str, job: &Value, strategy: Strategy) -> StageResult {
     let top = ctx.world.top.clone();
-    let mut res = StageResult { choices: vec![], enabled: vec![], last_before: vec![] };
+    let mut res = StageResult { calls: vec![], choices: vec![], enabled: vec![], last_before: vec![] };
     if let Some(op) = stage["tracer_op"].as_str() {
         match op {
             "age_temp" => {
@@ -1454,6 +1466,7 @@ fn run_stage(stage: &Value, ctx: &mut RunCtx, actor: &str, job: &Value, strategy
             crash_at: p["crash_at"].as_u64().map(|x| x as usize),
             fault_at: p["fault_at"].as_u64().map(|x| (x as usize, errno_of_name(p["fault_errno"].as_str().unwrap_or("EIO")))),
             ops_done: 0,
+            callnames: Vec::new(),
         };
         if sched {
             t.pid = spawn_actor(actor, &spec);
@@ -1465,6 +1478,7 @@ fn run_stage(stage: &Value, ctx: &mut RunCtx, actor: &str, job: &Value, strategy
             advance(&mut t, ctx, false, false);
             kill_tracee(&mut t);
             emit_stage_end(ctx, &t);
+            res.calls.push((t.part, t.callnames.clone()));
         }
     }
     if !sched {
@@ -1530,6 +1544,7 @@ fn run_stage(stage: &Value, ctx: &mut RunCtx, actor: &str, job: &Value, strategy
             ctx.emit(ev);
         }
         emit_stage_end(ctx, t);
+        res.calls.push((t.part, t.callnames.clone()));
     }
     res
 }
@@ -1618,7 +1633,7 @@ fn run_once(job: &Value, runno: u64, actor: &str, work: &str, out: &mut dyn Writ
         reset["snap"] = json!({"ents": {".": {}}, "inos": {}});
     }
     ctx.emit(reset);
-    let mut result = StageResult { choices: vec![], enabled: vec![], last_before: vec![] };
+    let mut result = StageResult { calls: vec![], choices: vec![], enabled: vec![], last_before: vec![] };
     let stages = job["stages"].as_array().cloned().unwrap_or_default();
     let mut rng = rng;
     for st in stages.iter() {
@@ -1633,7 +1648,7 @@ fn run_once(job: &Value, runno: u64, actor: &str, work: &str, out: &mut dyn Writ
             Strategy::Explicit(&[])
         };
         let r = run_stage(st, &mut ctx, actor, job, strat);
-        if is_sched {
+        if is_sched || st["victim"].as_bool().unwrap_or(false) {
             result = r;
         }
     }
@@ -1761,6 +1776,64 @@ fn main() {
                     match next {
                         Some(p) => prefix = p,
                         None => break,
+                    }
+                }
+            }
+            "crash" | "fault" => {
+                // Clean run first: how many calls does the victim make, and which?
+                runs += 1;
+                let (r, _) = run_once(&job, runs, &actor, &work, &mut out, &[], None);
+                let victim = ex["part"].as_u64().unwrap_or(1) as usize;
+                let names: Vec<String> = r.calls.iter().find(|(p, _)| *p == victim).map(|(_, v)| v.clone()).unwrap_or_default();
+                let stride = ex["stride"].as_u64().unwrap_or(1).max(1) as usize;
+                let offset = ex["offset"].as_u64().unwrap_or(0) as usize;
+                for i in 1..=names.len() {
+                    if (i + offset) % stride != 0 {
+                        continue;
+                    }
+                    let errnos: Vec<String> = if kind == "crash" {
+                        vec![String::new()]
+                    } else {
+                        let m = &ex["errnos"];
+                        let lst = if m[names[i - 1].as_str()].is_array() { &m[names[i - 1].as_str()] } else { &m["*"] };
+                        lst.as_array().map(|a| a.iter().map(|x| x.as_str().unwrap_or("EIO").to_string()).collect()).unwrap_or_default()
+                    };
+                    for en in errnos {
+                        let mut j2 = job.clone();
+                        // find the victim participant in the victim stage
+                        if let Some(stages) = j2["stages"].as_array_mut() {
+                            for st in stages.iter_mut() {
+                                if st["victim"].as_bool().unwrap_or(false) {
+                                    if let Some(parts) = st["parts"].as_array_mut() {
+                                        for (pi, p) in parts.iter_mut().enumerate() {
+                                            let pid = p["pid"].as_u64().unwrap_or((pi + 1) as u64) as usize;
+                                            if pid == victim {
+                                                if kind == "crash" {
+                                                    p["crash_at"] = json!(i);
+                                                } else {
+                                                    p["fault_at"] = json!(i);
+                                                    p["fault_errno"] = json!(en);
+                                                }
+                                            }
+                                        }
+                                    }
+                                }
+                            }
+                        }
+                        let mut cfg = j2["cfg"].clone();
+                        if !cfg.is_object() {
+                            cfg = json!({});
+                        }
+                        cfg["inject"] = json!({"kind": kind, "at": i, "call": names[i - 1], "errno": en});
+                        j2["cfg"] = cfg;
+                        runs += 1;
+                        run_once(&j2, runs, &actor, &work, &mut out, &[], None);
+                        if runs >= max_runs {
+                            break;
+                        }
+                    }
+                    if runs >= max_runs {
+                        break;
                     }
                 }
             }
